@@ -2434,6 +2434,8 @@ TARGETS = [
     ("src/lib.rs", UINT_IMPL, "checked_from_limbs_slice", "U.checked_from_limbs_slice", "g_checked_from_limbs_slice", "uint"),
     ("src/lib.rs", UINT_IMPL, "wrapping_from_limbs_slice", "U.wrapping_from_limbs_slice", "g_wrapping_from_limbs_slice", "uint"),
     ("src/lib.rs", UINT_IMPL, "saturating_from_limbs_slice", "U.saturating_from_limbs_slice", "g_saturating_from_limbs_slice", "uint"),
+    ("src/log.rs", UINT_IMPL, "checked_log2", "U.checked_log2", "g_checked_log2", "uint"),
+    ("src/log.rs", UINT_IMPL, "log2", "U.log2", "g_log2", "uint"),
     ("src/pow.rs", UINT_IMPL, "overflowing_pow", "U.overflowing_pow", "g_overflowing_pow", "uint"),
     ("src/pow.rs", UINT_IMPL, "checked_pow", "U.checked_pow", "g_checked_pow", "uint"),
     ("src/pow.rs", UINT_IMPL, "saturating_pow", "U.saturating_pow", "g_saturating_pow", "uint"),
